@@ -8,14 +8,10 @@
     with no pending UTF-8 bytes, `process [ESC, 'c']` yields the screen of
     `Parser::new` and a vte state that is `Ground` with empty parameter /
     intermediate / carry fields.
-  * `ris_process_any` : from *every* vte state (any of the 14 states, any
-    collected parameters, a pending partial UTF-8 sequence) the screen after
-    `ESC c` is the fresh screen, provided the bytes are dispatched at all — which
-    `esc_c_dispatches` shows for all states: the only actions before the RIS are the OSC/DCS terminations and
-    the U+FFFD for the cut sequence, none of which can change the screen
-    (C18), and RIS overwrites the whole screen anyway.
-  Equal states have equal futures: "every later input behaves as on a fresh parser"
-  is congruence.
+  * from *every* reachable vte state (any of the 14 states, any collected parameters, a pending partial UTF-8
+    sequence), end to end, and "every later input behaves as on a fresh parser": C17any (`VteClean`, `advance_ris`,
+    `ris_process_any`, `ris_then_fresh`, `ris_end_to_end`).  It needs an invariant of the automaton — without it the
+    statement is false (`needs_esc_clause`, `needs_osc_clause`, `needs_carry_clause` there).
 -/
 import Vt.Model.Perform
 import Vt.Lemmas.Except
